@@ -276,6 +276,60 @@ fn unrelated_removals(v: &Mutex<Vec<(String, String)>>) {
     }
 }
 
+/// Two types under one id are two keys, for every hash seed: many fresh caches (each draws its own
+/// seeds) holding only (id, SVal); look-ups, presence and removal under other types must miss, and the
+/// stored entry stays; with threads on the sharded cache.
+fn same_id_other_type(trials: u64, v: &Mutex<Vec<(String, String)>>) {
+    for i in 0..trials {
+        let id = format!("k{i}");
+        let mut c = assets_manager::LocalAssetCache::with_source(Mem::new(false));
+        c.get_or_insert::<SVal>(&id, SVal(V::new(1, "k")));
+        let r = std::panic::catch_unwind(std::panic::AssertUnwindSafe(|| {
+            let mut bad: Vec<&str> = vec![];
+            if c.contains::<TInt>(&id) {
+                bad.push("contains::<TInt> is true");
+            }
+            if c.get_cached::<TIntS>(&id).is_some() {
+                bad.push("get_cached::<TIntS> found an entry");
+            }
+            bad
+        }));
+        let mut bad: Vec<String> = match r {
+            Ok(b) => b.into_iter().map(|x| x.to_string()).collect(),
+            Err(_) => vec!["a look-up under another type panicked".to_string()],
+        };
+        if c.remove::<TInt>(&id) {
+            bad.push("remove::<TInt> returned true".into());
+        }
+        if !c.contains::<SVal>(&id) {
+            bad.push("the SVal entry is gone".into());
+        }
+        if !bad.is_empty() {
+            violation(v, "presence-flipped", format!("LocalAssetCache holding only (SVal, {id:?}): {}", bad.join("; ")));
+            return;
+        }
+    }
+    for i in 0..trials / 8 {
+        let c = AssetCache::without_hot_reloading(Mem::new(false));
+        let ids: Vec<String> = (0..8).map(|j| format!("s{i}_{j}")).collect();
+        for id in &ids {
+            c.get_or_insert::<SVal>(id, SVal(V::new(1, "k")));
+        }
+        let r = std::panic::catch_unwind(std::panic::AssertUnwindSafe(|| {
+            std::thread::scope(|s| {
+                for _ in 0..2 {
+                    s.spawn(|| ids.iter().any(|id| c.contains::<TInt>(id) || c.get_cached::<TIntS>(id).is_some() || !c.contains::<SVal>(id)));
+                }
+            });
+            ids.iter().any(|id| c.contains::<TInt>(id) || c.as_any_cache().get_cached::<TIntS>(id).is_some())
+        }));
+        if !matches!(r, Ok(false)) {
+            violation(v, "presence-flipped", format!("AssetCache holding only SVal entries under {ids:?}: a look-up under another type found something or panicked"));
+            return;
+        }
+    }
+}
+
 pub fn run(a: &Args) {
     trace_enable(false);
     let mut rng = Rng::new(a.seed);
@@ -316,6 +370,10 @@ pub fn run(a: &Args) {
     if !only_reentrant {
         unrelated_removals(&v);
         evals += 2;
+        std::panic::set_hook(Box::new(|_| {}));
+        same_id_other_type(if a.thorough() { 40000 } else { 4000 }, &v);
+        let _ = std::panic::take_hook();
+        evals += 1;
     }
     samples.push("{\"kind\": \"loader registers a placeholder under its own key (AssetCache, LocalAssetCache)\"}".to_string());
     let viol = v.into_inner().unwrap();
